@@ -14,7 +14,7 @@ RULE = ('cases: byte-string decoded into a role, 1..6 receive_data batches of PI
         'frame between them; distinct = distinct concrete traces (blake2 of the trace)')
 ASSUMPTIONS = ['peer frames are built by the harness codec wire.py']
 TIERS = {'quick': {'cases': 6000, 'size': 260},
-         'thorough': {'cases': 300000, 'size': 400}}
+         'thorough': {'cases': 1200000, 'size': 400}}
 
 
 def run_case(data):
